@@ -20,12 +20,13 @@ def run(ctx):
         raise Infra("SchemeRoutingGen produced no behaviours")
     # derived requests (CopyTo copies, requests received by a live server and forwarded): every way
     # of obtaining the request object, for Client and the two HostClients
-    n2, ms2 = ctx.pick((2, 1), (3, 1))
-    _, beh2 = ctx.tlc_gen("client", "SchemeRoutingGen", "SchemeRoutingGen.cfg", workers=4, timeout=3000,
-                          consts=dict(ENTRIES="DirectEntries", MAXREQS=n2, MAXSCRIPT=ms2, VIAS="DerivedVias"))
-    if not beh2:
-        raise Infra("SchemeRoutingGen produced no derived-request behaviours")
-    beh += beh2
+    derived = ctx.pick([("DirectEntries", 2, 1)], [("DirectEntries", 2, 1), ("ClientOnly", 3, 1)])
+    for ent, n2, ms2 in derived:
+        _, beh2 = ctx.tlc_gen("client", "SchemeRoutingGen", "SchemeRoutingGen.cfg", workers=4, timeout=3000,
+                              consts=dict(ENTRIES=ent, MAXREQS=n2, MAXSCRIPT=ms2, VIAS="DerivedVias"))
+        if not beh2:
+            raise Infra("SchemeRoutingGen produced no derived-request behaviours")
+        beh += beh2
     if not ctx.quick:
         ctx.tlc_mc("client", "SchemeRoutingGen", "SchemeRoutingMC.cfg", workers=4, timeout=3000,
                    consts=dict(HOSTSEQ="ThreeHosts", MAXREQS=3, MAXSCRIPT=2))
